@@ -519,3 +519,110 @@ func vh_C06_L8_forward_tsn_names_only_skipped_streams() { vh_C07_L2_advance_only
 // messages waiting (= C07.L3b).
 func vh_C06_L10_duplicate_filter_has_a_slot_per_tsn() { vh_C01_L4_tracking_window_capacity() }
 func vh_C06_L10_order_kept_around_a_skip()            { vh_C07_L3_skip_covers_several_partial_messages() }
+
+// C06.L11: a skip only purges what lies at or below it. On a stream's unordered queue
+// (plain DATA) an abandoned message is partly held at or below the new cumulative TSN, and
+// a live reliable message above it is held without its first fragment (lost, about to be
+// retransmitted): the forward-TSN drops the former only; when the missing first fragment
+// arrives the live message is delivered whole, once. TSN base symbolic.
+func vh_C06_L11_skip_keeps_fragments_waiting_for_their_first() {
+	r := newReassemblyQueue(3, 0)
+	base := nondetU32()
+	nLive := 2 + vPick(2)
+	dead := vMakeMsg(3, false, true, 0, 0, base, 2, PayloadTypeWebRTCBinary)       // TSN base, base+1: abandoned
+	live := vMakeMsg(3, false, true, 0, 0, base+2, nLive, PayloadTypeWebRTCString) // TSN base+2 .. : reliable, first fragment lost
+	r.push(dead.chunks[vPick(2)])
+	for i := 1; i < nLive; i++ {
+		r.push(live.chunks[i])
+	}
+	held := r.getNumBytes()
+	r.forwardTSNForUnordered(base + 1)
+	vassert(r.getNumBytes() == held-1, "the skip drops the fragment of the abandoned message and nothing above the new cumulative TSN")
+	vassert(!r.isReadable(), "nothing is readable yet")
+	r.push(live.chunks[0]) // the retransmitted first fragment
+	vassert(r.isReadable(), "the live message is complete")
+	buf := make([]byte, 8)
+	n, ppi, err := r.read(buf)
+	vassert(err == nil && n == nLive && ppi == PayloadTypeWebRTCString, "and is delivered whole")
+	for i := 0; i < nLive && i < n; i++ {
+		vassert(buf[i] == live.bytes[i], "intact")
+	}
+	vassert(r.getNumBytes() == 0 && !r.isReadable(), "once")
+	vcover("end")
+}
+
+// C06.L7b: the lifetime limit holds whichever mechanism retransmits. Four one-chunk messages,
+// one per packet, on a stream with a lifetime of 20 ms; the first is lost, 30 ms pass, the
+// others arrive and are acknowledged one by one, so the first is retransmitted by the fast
+// retransmission (RACK's reordering window wide open) or by RACK, and lost again; T3 follows.
+// After the lifetime has expired the message is put on the wire at most once more, then it
+// is abandoned and the peer is told to skip it.
+func vh_C06_L7_lifetime_limit_with_fast_retransmission() {
+	il := vPick(2) == 1
+	a, b := vPair(vAssocOpts{interleaving: il, pickTSN: true, mtu: 36})
+	a.useForwardTSN, a.useIForwardTSN = !il, il
+	b.useForwardTSN, b.useIForwardTSN = !il, il
+	s, err := a.OpenStream(1, PayloadTypeWebRTCBinary)
+	vassert(err == nil, "open stream")
+	s.SetReliabilityParams(true, ReliabilityTypeTimed, 20)
+	if vPick(2) == 1 {
+		a.rackReorderingSeen = true
+		a.rackReoWnd = time.Second
+	}
+	first := a.myNextTSN
+	for i := 0; i < 4; i++ {
+		_, werr := s.WriteSCTP([]byte{byte(i), 1}, PayloadTypeWebRTCBinary)
+		vassert(werr == nil, "write accepted")
+	}
+	afterExpiry := 0
+	fwd := false
+	expired := false
+	for round := 0; round < 7; round++ {
+		for _, raw := range vWriterWake(a) {
+			p := vDecode(raw)
+			lost := false
+			for _, c := range p.chunks {
+				switch x := c.(type) {
+				case *chunkPayloadData:
+					if x.tsn == first {
+						lost = true
+						if expired {
+							afterExpiry++
+						}
+					}
+				case *chunkForwardTSN, *chunkIForwardTSN:
+					fwd = true
+				}
+			}
+			if lost {
+				continue
+			}
+			if !expired {
+				vSleep(30 * time.Millisecond) // the lifetime of the first message passes before anything is acknowledged
+				expired = true
+			}
+			vInbound(b, raw)
+			for _, back := range vWriterWake(b) {
+				vInbound(a, back)
+			}
+		}
+		if vWriterPending(a) {
+			continue
+		}
+		vFireAck(b)
+		for _, back := range vWriterWake(b) {
+			vInbound(a, back)
+		}
+		if !vWriterPending(a) {
+			vFireRtx(a, a.t3RTX)
+		}
+	}
+	vassert(afterExpiry <= 1, "once the lifetime has expired at most one further transmission of the message occurs, whichever mechanism retransmits")
+	vassert(fwd, "and the peer is told to skip it")
+	vassert(a.inflightQueue.size() == 0, "everything else was delivered and acknowledged")
+	vcover("end")
+}
+
+// C06.L12: a skip clears exactly its range of the duplicate filter (= C05.S1): nothing that
+// was skipped stays marked (it would make a later TSN look like a duplicate).
+func vh_C06_L12_skip_clears_exactly_its_range() { vh_C05_step_clear_range() }
